@@ -14,7 +14,7 @@ import (
 
 func init() {
 	checks["C03"] = checkC03
-	explanations["C03"] = "Structural necessary conditions: (1) atomicity (E1): AddVoucher only in the DI SetHMAC arm after both session reads; ReplaceVoucher only in the Done arm after the Done-nonce comparison and the reads of replacement HMAC (absent => credential reuse returns before touching the store), GUID and rvinfo; DI returns a credential only after SetHMAC was answered with DI.Done, TO2 only after the Done2 nonce comparison, and never together with an error. (2) field-source agreement (E2 composite-literal tables): the replacement VoucherHeader the device MACs and the one the owner stores each assign all six fields, taking Version/DeviceInfo/CertChainHash from the current (verified / stored) header and GUID/RvInfo/ManufacturerKey from SetupDevice resp. from the session's replacement GUID, rvinfo and the owner-key helper; the GUID and rvinfo sent in SetupDevice are the very values stored in the session; the header handed to the HMAC computation is the header whose fields fill the returned credential; in DI the stored header is the returned one and is stored after its RvInfo is set. Not decided: equality of encoded bytes on both sides (C11), blob round trip, multi-round histories, crash points inside the store."
+	explanations["C03"] = "Structural necessary conditions: (1) atomicity (E1): AddVoucher only in the DI SetHMAC arm after both session reads; ReplaceVoucher only in the Done arm after the Done-nonce comparison and the reads of replacement HMAC (absent => credential reuse returns before touching the store), GUID and rvinfo; DI returns a credential only after SetHMAC was answered with DI.Done, TO2 only after the Done2 nonce comparison, and never together with an error. (2) field-source agreement (E2 composite-literal tables): the replacement VoucherHeader the device MACs and the one the owner stores each assign all six fields, taking Version/DeviceInfo/CertChainHash from the current (verified / stored) header and GUID/RvInfo/ManufacturerKey from SetupDevice resp. from the session's replacement GUID, rvinfo and the owner-key helper; the GUID and rvinfo sent in SetupDevice are the very values stored in the session; the header handed to the HMAC computation is the header whose fields fill the returned credential; in DI the stored header is the returned one and is stored after its RvInfo is set. (0) the functions computing / verifying the header HMAC consult a fallible hash's Err() after the last Sum before reporting success, so an unnoticed failed HMAC cannot be bound into credential or voucher. Not decided: equality of encoded bytes on both sides (C11), blob round trip, multi-round histories, crash points inside the store."
 }
 
 // litFields returns, for a struct built in an alloc, field name -> stored value.
